@@ -1946,3 +1946,70 @@ def time_decoding(chk, src):
         chk.ob("time-decoding", f"TTNS.evolve [{label}]", ok, fi.where, {"state passed": got[0][0], "coeff * tau": str(sp.simplify(sp.sympify(got[0][1]) * got[0][2]))} if got else "no evolver call",
                {"state passed": "a copy", "coeff * tau": str(sp.simplify(-sp.I * tau_in))}, line=fi.node.lineno,
                detail="the evolvers apply exp(coeff * H * tau); for a step tau_given this must be exp(-i H tau_given) - in particular an imaginary step +i*s must heat (exp(+sH)) and -i*s must cool")
+
+
+# ---------------------------------------------------------------------------------------------- every exit of a decomposition has written both sides of the bond
+def must_update(chk, src):
+    """definite-assignment analysis: on every path to every return statement the decomposition functions have stored the new tensors of both ends of the bond and the
+    bond's labels (a shortcut exit that skips one of them leaves the gauge centre where the caller does not expect it)"""
+    chk.rule("must-update", "every exit of a tree decomposition function has updated the node tensor, the neighbour tensor (or returns the matrix to merge) and the bond labels", 4)
+    REQUIRED = {
+        "TTNS.compress_node": ({"tensor@node", "tensor@child", "qn@child"}, "node, child tensors and the child's labels"),
+        "TTNS.update_2site": ({"tensor@node", "tensor@parent", "qn@node"}, "node, parent tensors and the node's labels"),
+        "TTNS.decompose_to_parent": ({"tensor@node", "qn@node"}, "node tensor and labels (the bond matrix is returned)"),
+        "TTNS.decompose_to_child": ({"tensor@node", "qn@child"}, "node tensor and the child's labels (the bond matrix is returned)"),
+    }
+    for qual, (req, what) in REQUIRED.items():
+        fi = src.func(TREE, qual)
+        params = fi.params()
+        # which local names denote the child / parent
+        alias = {}
+        for st in ast.walk(fi.node):
+            if isinstance(st, ast.Assign) and isinstance(st.targets[0], ast.Name):
+                v = unparse(st.value).replace(" ", "")
+                if v in ("node.children[ichild]",):
+                    alias[st.targets[0].id] = "child"
+                if v in ("node.parent",):
+                    alias[st.targets[0].id] = "parent"
+
+        def target_key(t):
+            if not isinstance(t, ast.Attribute) or t.attr not in ("tensor", "qn"):
+                return None
+            base = unparse(t.value).replace(" ", "")
+            who = {"node": "node", "node.children[ichild]": "child", "node.parent": "parent"}.get(base) or alias.get(base)
+            return f"{t.attr}@{who}" if who else None
+
+        returns = []
+
+        def da(stmts, have):
+            have = set(have)
+            for st in stmts:
+                if isinstance(st, ast.Return):
+                    returns.append((st, set(have)))
+                    return have, True
+                if isinstance(st, (ast.Assign, ast.AugAssign)):
+                    for t in (st.targets if isinstance(st, ast.Assign) else [st.target]):
+                        k = target_key(t)
+                        if k:
+                            have.add(k)
+                elif isinstance(st, ast.If):
+                    h1, r1 = da(st.body, have)
+                    h2, r2 = da(st.orelse, have)
+                    if r1 and r2:
+                        return have, True
+                    have = h2 if r1 else (h1 if r2 else (h1 & h2))
+                elif isinstance(st, (ast.For, ast.While)):
+                    da(st.body, have)        # the body may run zero times: nothing it assigns is definite
+                elif isinstance(st, (ast.With, ast.Try)):
+                    have, r = da(getattr(st, "body", []), have)
+                    if r:
+                        return have, True
+            return have, False
+        end, returned = da(fi.node.body, set())
+        if not returned:
+            returns.append((fi.node.body[-1], end))
+        for r, have in returns:
+            missing = sorted(req - have)
+            chk.ob("must-update", f"{qual}: exit at statement `{unparse(r)[:40]}`", not missing, fi.where, {"not yet written": missing} if missing else "all written", what, line=r.lineno,
+                   detail=f"{qual} can return before it has written {missing}: e.g. a `nothing to truncate` shortcut that skips handing the singular values to the neighbour leaves the "
+                          "canonical centre behind, so the bonds below are truncated against a non-orthonormal environment (the result still passes the shape and canonical checks)")
